@@ -24,6 +24,11 @@ def run(ctx):
                 ids.add(a + b + c + "9F3C")
     for _ in range(400000 if th else 50000):
         ids.add("".join(rng.choice(UP) for _ in range(3)) + "".join(rng.choice(HEXU) for _ in range(4)))
+    for _ in range(2000 if th else 300):        # lower-case hex digits are hexadecimal digits too: same encoding as upper case
+        ids.add("".join(rng.choice(UP) for _ in range(3)) + "".join(rng.choice(HEXA) for _ in range(4)))
+    for pos in range(3, 7):
+        for ch in "abcdef":
+            ids.add("PNP0A08"[:pos] + ch + "PNP0A08"[pos + 1:])
     ids = sorted(ids)
     bad_ids = ["", "P", "PNP0A0", "PNP0A080", "PNP0A08 ", "PNP0G08", "PNP0A0Z", "PNPXA08", "PNP-A08", "PNP0A0_"] + ["A" * n for n in range(0, 12) if n != 7]
     nonhex = [chr(c) for c in range(0x20, 0x7f) if chr(c) not in HEXA]
